@@ -39,6 +39,12 @@ Theorem C10_directive_table : forall (f : bool) (p : string),
   visit_program_gen "dynamic" f p = ("dynamic", false, "dynamic")%string /\ visit_program_gen "final" f p = ("always", true, "always")%string /\
   visit_program_gen "base" f p = ("initial", false, "initial")%string.
 Proof. intros f p. destruct (directive_table f p) as [H1 [H2 [H3 H4]]]. split; [exact H1|split; [exact H2|split; [exact H3|split; [exact H4|exact (base_is_initial f p)]]]]. Qed.
+(* the texts the command line tool reads (TelApp.main: the condition for standard input is REGENERATED; that every file is opened, every source read into
+   a text of its own and the texts handed to transform() in that order is checked textually by the translator on every run): all files named, in the
+   order given, and standard input exactly if no file is named *)
+Theorem C10_all_files_are_read_in_order : forall n : nat, main_sources n = Some (if Nat.eqb n 0 then SrcStdin :: nil else map SrcFile (seq 0 n)).
+Proof. exact all_files_are_read_in_order. Qed.
+Print Assumptions C10_all_files_are_read_in_order.
 Print Assumptions C10_every_text_starts_in_the_initial_part.
 Print Assumptions C10_directive_table.
 Print Assumptions C10_total_and_states.
